@@ -809,7 +809,14 @@ func RuleKInsert(c *core.Ctx) {
 		return
 	}
 	found := false
-	for _, fn := range core.WithAnon(into) {
+	var intoFns []*ssa.Function
+	for fn := range p.ReachLexical(into) {
+		if core.PkgPathOf(fn) == pkgJournal {
+			intoFns = append(intoFns, fn)
+		}
+	}
+	sort.Slice(intoFns, func(i, j int) bool { return intoFns[i].String() < intoFns[j].String() })
+	for _, fn := range intoFns {
 		core.EachInstr(fn, func(ins ssa.Instruction) {
 			st, ok := ins.(*ssa.Store)
 			if !ok {
